@@ -140,6 +140,28 @@ def _generator(repo):
     if tail not in (['out=Z', 'returnout'], ['returnZ']): raise Refuse('zernike: result is post-processed: ' + '; '.join(tail))
     masks = [s for s in body if isinstance(s, ast.Assign) and ast.unparse(s.targets[0]) == 'mask']
     if [ast.unparse(s.value).replace(' ', '') for s in masks] != ['np.asarray(mask,dtype=bool)']: raise Refuse('zernike: mask is not cast with dtype=bool')
+    # ---- where the coordinates come from: the block between the cast and the index call, translated; and nothing else in the body
+    if body.index(masks[0]) != 0: raise Refuse('zernike: the bool cast of the mask is not the first statement')
+    between = body[1:body.index(idx[0])]
+    if body.index(trees[0]) != body.index(idx[0]) + 1: raise Refuse('zernike: statements between the index call and the decision tree')
+    def _src(stmts):
+        if not stmts: return 'CoordSrc.caller'
+        if len(stmts) != 1: raise Refuse('zernike: coordinate block: one statement per branch expected')
+        st = stmts[0]
+        if isinstance(st, ast.If):
+            t = ast.unparse(st.test).replace(' ', '')
+            c = {'rhoisNone': 'rhoNone', 'thetaisNone': 'thetaNone', 'rhoisnotNone': '!rhoNone', 'thetaisnotNone': '!thetaNone'}.get(t)
+            if c is None: raise Refuse('zernike: coordinate block condition ' + ast.unparse(st.test))
+            return f'(if {c} then {_src(st.body)} else {_src(st.orelse)})'
+        if isinstance(st, ast.Assign) and ast.unparse(st).replace(' ', '').replace('(rho,theta)', 'rho,theta') == 'rho,theta=zernike_coordinates(mask)':
+            return 'CoordSrc.default'         # the mask alone: shift=None (centroid origin), rotate=0
+        if isinstance(st, ast.Raise) and st.exc is not None and ast.unparse(st.exc).startswith('ValueError('): return 'CoordSrc.refuse'
+        raise Refuse('zernike: coordinate block statement ' + ast.unparse(st)[:80])
+    if len(between) != 1 or not isinstance(between[0], ast.If): raise Refuse('zernike: one `if` between the mask cast and the index call expected')
+    coord_src = _src(between)
+    zc_body = [s for s in _fn(mod, 'zernike_coordinates').body if not (isinstance(s, ast.Expr) and isinstance(s.value, ast.Constant))]
+    if ast.unparse(zc_body[0]).replace(' ', '') != 'mask=np.asarray(mask,dtype=bool)':
+        raise Refuse('zernike_coordinates: the mask is not cast with dtype=bool before use')
     tree = _tree([trees[0]], '  ')
     # ---- zernike_coordinates: default origin
     ZC = _fn(mod, 'zernike_coordinates')
@@ -255,14 +277,19 @@ def _generator(repo):
             f'def radialDen (n m k : Nat) : Nat := {den}\n\n'
             '/-- `R`: exponent of `rho` in term `k` -/\n'
             f'def radialExp (n m k : Nat) : Nat := {exp}\n\n'
+            '/-- `zernike`: where (rho, theta) come from — `default` = `zernike_coordinates(mask)` (centroid origin, no rotation), `caller` = the\n'
+            'arguments as given, `refuse` = `ValueError` -/\n'
+            'inductive CoordSrc where\n  | default | caller | refuse\n  deriving DecidableEq, Repr\n\n'
+            '/-- `zernike`: the block between the mask cast and `zernike_index(index)`; `rhoNone`/`thetaNone` = the argument is `None` -/\n'
+            f'def zernCoordSrc (rhoNone thetaNone : Bool) : CoordSrc := {coord_src}\n\n'
             '/-- `zernike`: the decision tree on (m, n, normalize) and the product in each leaf; `Rv` = R(m, n, rho), `sqrtN k` = np.sqrt(k),\n'
             '`mk` = the mask entry as the factor 1 or 0 (where the code multiplies by the boolean mask; `np.where(mask, e, 0)` becomes `if mask then e else 0`) -/\n'
             'def zernCore {K : Type} [Add K] [Mul K] [Zero K] [One K] [IntCast K] (sqrtN : Nat → K) (cos sin : K → K)\n'
             '    (n : Nat) (m : Int) (normalize : Bool) (Rv theta : K) (mask : Bool) : K :=\n'
             '  let mk : K := if mask then 1 else 0\n' + tree + '\n')
     return lean, ['R: guard, term count, coefficient numerator/denominator and exponent translated; zernike: decision tree and leaf products translated',
-                  'zernike: `m, n = zernike_index(index)`, bool cast of the mask and the unprocessed return checked structurally',
+                  'zernike: `m, n = zernike_index(index)`, bool cast of the mask and the unprocessed return checked structurally; the coordinate-source block (rho/theta None) translated; the body consists of exactly: cast, that block, index call, tree, return',
                   'zernike_index: row-search argument, k, r, sign rule, row seeds, loop count and append step translated; guard j < 1, n == 0 branch, m = row_m[r]*sign matched',
-                  'zernike_coordinates: centre index and default shift translated; mesh call, r, rho, angle and theta statements matched']
+                  'zernike_coordinates: bool cast of the mask matched as first statement; centre index and default shift translated; mesh call, r, rho, angle and theta statements matched']
 
 MODULES = [{'name': 'ZernikeR', 'src': 'lentil/zernike.py', 'generator': _generator, 'props': ['C11', 'C12']}]
